@@ -11,7 +11,7 @@ def den_osu(lines):
 
     d = ro.parse_osu(lines)
     objs = [(h["column"], float(h["offset"]), None) for h in d["hits"]] + [(h["column"], float(h["offset"]), float(h["offset"] + h["length"])) for h in d["holds"]]
-    return [dict(objects=sorted(objs, key=lambda o: (o[0], o[1], -1.0 if o[2] is None else o[2])), tempo=sorted((b["offset"], b["bpm"]) for b in d["bpms"]), problems=d["problems"], keys=d["keys"])]
+    return [dict(objects=sorted(objs, key=lambda o: (o[0], o[1], -1.0 if o[2] is None else o[2])), tempo=sorted(((b["offset"], b["bpm"]) for b in d["bpms"]), key=lambda p: p[0]), problems=d["problems"], keys=d["keys"])]
 
 
 def den_qua(text):
@@ -22,7 +22,8 @@ def den_qua(text):
     for o in doc["HitObjects"]:
         t = float(o.get("StartTime", 0))
         objs.append((o.get("Lane", 1) - 1, t, float(o["EndTime"]) if "EndTime" in o else None))
-    tempo = sorted((float(b.get("StartTime", 0)), float(b["Bpm"])) for b in doc["TimingPoints"] if "Bpm" in b)
+    # time order; of two points at one time the one listed later is the one in force (file order kept)
+    tempo = sorted(((float(b.get("StartTime", 0)), float(b["Bpm"])) for b in doc["TimingPoints"] if "Bpm" in b), key=lambda p: p[0])
     return [dict(objects=sorted(objs, key=lambda o: (o[0], o[1], -1.0 if o[2] is None else o[2])), tempo=tempo, problems=[], mode=doc.get("Mode"))]
 
 
